@@ -31,20 +31,20 @@ class OracleCache(object):
     def __init__(self, tape, ev):
         self.tape, self.ev = tape, ev
 
-    def _hit(self, kind, coord):
-        return self.tape.choose('%s:%s' % (kind, _c(coord)), ['hit', 'miss']) == 'hit'
+    def _hit(self, kind, coord, dimensions=None):
+        return self.tape.choose('%s:%s' % (kind, _c(coord, dimensions)), ['hit', 'miss']) == 'hit'
 
     def is_cached(self, tile, dimensions=None):
         if tile.coord is None:
             return True
         if tile.source:
             return True
-        return self._hit('is_cached', tile.coord)
+        return self._hit('is_cached', tile.coord, dimensions)
 
     def load_tile(self, tile, with_metadata=False, dimensions=None):
         if tile.source or tile.coord is None:
             return True
-        if self._hit('load', tile.coord):
+        if self._hit('load', tile.coord, dimensions):
             tile.source = tmstub.Img(('cached', tile.coord))
             return True
         return False
@@ -62,20 +62,24 @@ class OracleCache(object):
 
     def store_tile(self, tile, dimensions=None):
         self.ev.append(('store', [tile.coord], [tile.source]))
-        self.tape.note('store:%s' % _c(tile.coord))
+        self.tape.note('store:%s' % _c(tile.coord, dimensions))
         tile.stored = True
         return True
 
     def store_tiles(self, tiles, dimensions=None):
         self.ev.append(('store', [t.coord for t in tiles], [t.source for t in tiles]))
-        self.tape.note('store:%s' % '+'.join(_c(t.coord) for t in tiles))
+        self.tape.note('store:%s' % '+'.join(_c(t.coord, dimensions) for t in tiles))
         for t in tiles:
             t.stored = True
         return True
 
 
-def _c(coord):
-    return '%d_%d_%d' % tuple(coord)
+def _c(coord, dimensions=None):
+    """address label: coordinate plus the dimension values the backend was given (a lookup without them is another address)"""
+    a = '%d_%d_%d' % tuple(coord)
+    if dimensions:
+        a += '@' + ','.join('%s=%s' % kv for kv in sorted(dimensions.items()))
+    return a
 
 
 class OracleLocker(object):
@@ -112,6 +116,9 @@ CONFIGS = {
     'meta2x2': dict(meta_size=[2, 2], meta_buffer=0),
     'meta2x2-minimize': dict(meta_size=[2, 2], meta_buffer=0, minimize_meta_requests=True),
     'meta2x2-bulk': dict(meta_size=[2, 2], meta_buffer=0, bulk_meta_tiles=True, tiled_source=True),
+    # requests that carry dimension values (TIME=...): the backend address includes them
+    'meta2x2-dims': dict(meta_size=[2, 2], meta_buffer=0, dimensions={'time': 'a'}),
+    'single-dims': dict(meta_size=None, meta_buffer=0, dimensions={'time': 'a'}),
 }
 
 
@@ -132,7 +139,7 @@ def make_run(cfgname, coords, patches=None):
         mgr = t.TileManager(G, cache, [src], 'png', locker, image_opts=None, meta_size=cfg['meta_size'],
                             meta_buffer=cfg['meta_buffer'], minimize_meta_requests=cfg.get('minimize_meta_requests', False),
                             bulk_meta_tiles=cfg.get('bulk_meta_tiles', False))
-        tiles = mgr.load_tile_coords(list(coords))
+        tiles = mgr.load_tile_coords(list(coords), dimensions=cfg.get('dimensions'))
         complete = all(tiles[c].source is not None for c in coords)
         # what was stored must be the image of its own address (meta split or own bbox)
         for _, cs, srcs in ev:
@@ -416,30 +423,30 @@ def replay_schedule(scn, sched, patches):
         supports_timestamp = True
         coverage = None
 
-        def _obs(self, kind, coord):
-            ev = '%s:%s' % (kind, _c(coord))
+        def _obs(self, kind, coord, dimensions=None):
+            ev = '%s:%s' % (kind, _c(coord, dimensions))
             gate.wait_turn(tls.tid, ev)
-            hit = _c(coord) in store
+            hit = _c(coord, dimensions) in store
             gate.done(tls.tid, ev)
             return hit
 
         def is_cached(self, tile, dimensions=None):
             if tile.coord is None or tile.source:
                 return True
-            return self._obs('is_cached', tile.coord)
+            return self._obs('is_cached', tile.coord, dimensions)
 
         def load_tile(self, tile, with_metadata=False, dimensions=None):
             if tile.source or tile.coord is None:
                 return True
-            if self._obs('load', tile.coord):
-                tile.source = store[_c(tile.coord)]
+            if self._obs('load', tile.coord, dimensions):
+                tile.source = store[_c(tile.coord, dimensions)]
                 return True
             return False
 
         def load_tiles(self, tiles, with_metadata=False, dimensions=None):
             ok = True
             for x in tiles:
-                if not self.load_tile(x):
+                if not self.load_tile(x, dimensions=dimensions):
                     ok = False
             return ok
 
@@ -447,13 +454,13 @@ def replay_schedule(scn, sched, patches):
             tile.timestamp = 0
 
         def store_tile(self, tile, dimensions=None):
-            return self.store_tiles([tile])
+            return self.store_tiles([tile], dimensions=dimensions)
 
         def store_tiles(self, tiles, dimensions=None):
-            ev = 'store:%s' % '+'.join(_c(x.coord) for x in tiles)
+            ev = 'store:%s' % '+'.join(_c(x.coord, dimensions) for x in tiles)
             gate.wait_turn(tls.tid, ev)
             for x in tiles:
-                store[_c(x.coord)] = x.source
+                store[_c(x.coord, dimensions)] = x.source
                 x.stored = True
             gate.done(tls.tid, ev)
             return True
@@ -500,7 +507,7 @@ def replay_schedule(scn, sched, patches):
                                 meta_buffer=cfg['meta_buffer'], minimize_meta_requests=cfg.get('minimize_meta_requests', False),
                                 bulk_meta_tiles=cfg.get('bulk_meta_tiles', False))
             for _ in range(3):
-                tiles = mgr.load_tile_coords([tuple(c) for c in coords])
+                tiles = mgr.load_tile_coords([tuple(c) for c in coords], dimensions=cfg.get('dimensions'))
                 if any(tiles[tuple(c)].source is None for c in coords):
                     incomplete.append(tid)
                 if gate.step >= len(gate.schedule):
@@ -542,9 +549,11 @@ SCENARIOS = {
     'meta2x2/different-meta-tiles': dict(config='meta2x2', requests=[[A], [X]], independent=[0, 1]),
     'meta2x2/three-requests': dict(config='meta2x2', requests=[[A], [B], [A]]),
     'meta2x2-bulk/two-tiles-of-one-meta-tile': dict(config='meta2x2-bulk', requests=[[A], [B]]),
+    'meta2x2-dims/two-tiles-of-one-meta-tile': dict(config='meta2x2-dims', requests=[[A], [D]]),
+    'single-dims/same-tile-x2': dict(config='single-dims', requests=[[A], [A]]),
 }
 QUICK = ['single/same-tile-x2', 'single/two-tiles', 'meta2x2/same-tile-x2', 'meta2x2/two-tiles-of-one-meta-tile',
-         'meta2x2/different-meta-tiles', 'meta2x2-bulk/two-tiles-of-one-meta-tile']
+         'meta2x2/different-meta-tiles', 'meta2x2-bulk/two-tiles-of-one-meta-tile', 'meta2x2-dims/two-tiles-of-one-meta-tile']
 
 CANARIES = [
     ('no re-check under the lock (single tile)', 'single/same-tile-x2', {'mapproxy.cache.tile': [(
@@ -597,8 +606,8 @@ META = dict(
     functions=['TileManager.load_tile_coords', 'TileManager._load_tile_coords', 'TileManager.lock', 'TileCreator.create_tiles',
                'TileCreator._create_single_tile', 'TileCreator._create_meta_tile', 'TileCreator._create_bulk_meta_tile',
                'TileLocker.lock_filename', 'MetaGrid.main_tile'],
-    bounds='2-3 concurrent requests (each repeating forever) from a family of 8 scenarios: no meta tiling, 2x2 meta tiles, '
-           'bulk meta tiles; unbounded schedule length for the "holds" verdict; BMC horizon 14-22',
+    bounds='2-3 concurrent requests (each repeating forever) from a family of 10 scenarios: no meta tiling, 2x2 meta tiles, '
+           'bulk meta tiles, requests with dimension values (the backend address includes them); unbounded schedule length for the "holds" verdict; BMC horizon 14-22',
     outside='minimize_meta_requests (automaton of a two-tile request has ~500 nodes: Houdini did not finish in 20 min), real thread/process timing, Riak/Redis lockers, renderd, the concurrent_tile_creators thread pool (C15), expiry (C13), '
             'failure of the upstream during creation',
     assumptions=['the tile lock is an ideal mutex per lock file name (C07)', 'the cache never loses tiles during the run',
